@@ -1,2 +1,130 @@
-import Pakhi.Model.Interp
-import Pakhi.Model.Parser
+/-
+  C16 — list built-ins behave like operations on a mathematical sequence.
+
+  Point-wise characterisations of the sequence operations behind `_লিস্ট-পুশ` / `_লিস্ট-পপ`
+  (`insertAt` = `Vec::insert`, `removeAt` = `Vec::remove`, append, remove-last) for every list,
+  every position and every value; the validity condition of `list_position`; and the refinement
+  statements: each built-in, applied through any alias (= arena index), turns the arena cell into
+  the result of the abstract sequence operation, leaves every other cell alone, and an invalid
+  position or a non-list argument produces no new state at all.
+-/
+import Pakhi.Lemmas.Seq
+
+namespace Pakhi
+namespace C16
+
+/-- insert at `i ≤ len`: length + 1 -/
+theorem insert_length (l : List Val) (i : Nat) (x : Val) (h : i ≤ l.length) :
+    (insertAt l i x).length = l.length + 1 := insertAt_length l i x h
+/-- insert: positions before `i` are unchanged -/
+theorem insert_before (l : List Val) (i j : Nat) (x : Val) (hi : i ≤ l.length) (hj : j < i) :
+    (insertAt l i x)[j]? = l[j]? := insertAt_get_lt l i j x hi hj
+/-- insert: position `i` holds the value -/
+theorem insert_at (l : List Val) (i : Nat) (x : Val) (hi : i ≤ l.length) :
+    (insertAt l i x)[i]? = some x := insertAt_get_eq l i x hi
+/-- insert: the tail is shifted right -/
+theorem insert_after (l : List Val) (i j : Nat) (x : Val) (hi : i ≤ l.length) (hj : i < j) :
+    (insertAt l i x)[j]? = l[j - 1]? := insertAt_get_gt l i j x hi hj
+/-- remove at `i < len`: length − 1 -/
+theorem remove_length (l : List Val) (i : Nat) (h : i < l.length) :
+    (removeAt l i).length = l.length - 1 := removeAt_length l i h
+/-- remove: positions before `i` are unchanged -/
+theorem remove_before (l : List Val) (i j : Nat) (hi : i < l.length) (hj : j < i) :
+    (removeAt l i)[j]? = l[j]? := removeAt_get_lt l i j hi hj
+/-- remove: the tail is shifted left -/
+theorem remove_after (l : List Val) (i j : Nat) (hi : i < l.length) (hj : i ≤ j) :
+    (removeAt l i)[j]? = l[j + 1]? := removeAt_get_ge l i j hi hj
+
+/-- append acts at the end -/
+theorem push_end (l : List Val) (x : Val) :
+    (l ++ [x]).length = l.length + 1 ∧ (l ++ [x])[l.length]? = some x ∧
+    ∀ j, j < l.length → (l ++ [x])[j]? = l[j]? := by
+  refine ⟨by simp, by simp, ?_⟩
+  intro j hj; simp [List.getElem?_append, hj]
+
+/-- remove-last acts at the end (and is the identity on the empty list) -/
+theorem pop_end (l : List Val) :
+    l.dropLast.length = l.length - 1 ∧ ∀ j, j < l.length - 1 → l.dropLast[j]? = l[j]? := by
+  refine ⟨by simp, ?_⟩
+  intro j hj
+  simp [List.dropLast_eq_take, List.getElem?_take, hj]
+
+/-- a position is accepted exactly when it is not negative and, truncated, lies before `len` -/
+theorem listPosition_some (n : Num.Bits) (len p : Nat) :
+    listPosition n len = some p ↔ (Num.geZero n = true ∧ Num.toUsize n < len ∧ p = Num.toUsize n) := by
+  unfold listPosition
+  by_cases h1 : Num.geZero n = true <;> by_cases h2 : Num.toUsize n < len <;> simp [h1, h2] <;> omega
+
+theorem listPosition_lt (n : Num.Bits) (len p : Nat) (h : listPosition n len = some p) : p < len := by
+  have := (listPosition_some n len p).1 h; omega
+
+/-- the names of the three list built-ins resolve to their implementations -/
+theorem names_resolve :
+    builtinOf? W.fnListPush = some .listPush ∧ builtinOf? W.fnListPop = some .listPop ∧
+    builtinOf? W.fnListLen = some .listLen := by decide
+
+/-- `_লিস্ট-পুশ(l, x)` through any alias `i`: the cell becomes the sequence with `x` appended -/
+theorem push_refines (s : St) (i : Nat) (l : List Val) (x : Val) (h : s.heap.lists[i]? = some l) :
+    callB .listPush [.list i, x] s =
+      .inl (.nil, { s with heap := { s.heap with lists := s.heap.lists.set i (l ++ [x]) } }) := by
+  simp [callB, h]
+
+/-- `_লিস্ট-পুশ(l, n, x)` with a valid position: the cell becomes `insertAt` -/
+theorem insert_refines (s : St) (i p : Nat) (l : List Val) (n : Num.Bits) (x : Val)
+    (h : s.heap.lists[i]? = some l) (hp : listPosition n (l.length + 1) = some p) :
+    callB .listPush [.list i, .num n, x] s =
+      .inl (.nil, { s with heap := { s.heap with lists := s.heap.lists.set i (insertAt l p x) } }) := by
+  simp [callB, h, hp]
+
+/-- `_লিস্ট-পপ(l)`: the cell loses its last element -/
+theorem pop_refines (s : St) (i : Nat) (l : List Val) (h : s.heap.lists[i]? = some l) :
+    callB .listPop [.list i] s =
+      .inl (.nil, { s with heap := { s.heap with lists := s.heap.lists.set i l.dropLast } }) := by
+  simp [callB, h]
+
+/-- `_লিস্ট-পপ(l, n)` with a valid position: the cell becomes `removeAt` -/
+theorem remove_refines (s : St) (i p : Nat) (l : List Val) (n : Num.Bits)
+    (h : s.heap.lists[i]? = some l) (hp : listPosition n l.length = some p) :
+    callB .listPop [.list i, .num n] s =
+      .inl (.nil, { s with heap := { s.heap with lists := s.heap.lists.set i (removeAt l p) } }) := by
+  simp [callB, h, hp]
+
+/-- `_লিস্ট-লেন(l)` counts the elements and changes nothing -/
+theorem len_refines (s : St) (i : Nat) (l : List Val) (h : s.heap.lists[i]? = some l) :
+    callB .listLen [.list i] s = .inl (.num (Num.ofNat l.length), s) := by
+  simp [callB, h]
+
+/-- an invalid insert position is an error: no new state is produced, so the list is as it was -/
+theorem insert_invalid (s : St) (i : Nat) (l : List Val) (n : Num.Bits) (x : Val)
+    (h : s.heap.lists[i]? = some l) (hp : listPosition n (l.length + 1) = none) :
+    ∃ tag, callB .listPush [.list i, .num n, x] s = .inr tag := by
+  simp [callB, h, hp]
+
+/-- an invalid remove position is an error -/
+theorem remove_invalid (s : St) (i : Nat) (l : List Val) (n : Num.Bits)
+    (h : s.heap.lists[i]? = some l) (hp : listPosition n l.length = none) :
+    ∃ tag, callB .listPop [.list i, .num n] s = .inr tag := by
+  simp [callB, h, hp]
+
+/-- a non-list first argument is an error for every list built-in and every arity -/
+theorem non_list_is_error (s : St) (v : Val) (rest : List Val) (hv : ∀ i, v ≠ .list i) :
+    (∃ t, callB .listPush (v :: rest) s = .inr t) ∧ (∃ t, callB .listPop (v :: rest) s = .inr t) ∧
+    (∃ t, callB .listLen (v :: rest) s = .inr t) := by
+  cases v <;> first | exact absurd rfl (hv _) | skip
+  all_goals (refine ⟨?_, ?_, ?_⟩ <;> (match rest with
+    | [] => simp [callB]
+    | [_] => simp [callB]
+    | [_, _] => simp [callB]
+    | _ :: _ :: _ :: _ => simp [callB]))
+
+/-- a non-number position is an error -/
+theorem non_number_position_is_error (s : St) (i : Nat) (l : List Val) (p x : Val)
+    (h : s.heap.lists[i]? = some l) (hp : ∀ n, p ≠ .num n) :
+    (∃ t, callB .listPush [.list i, p, x] s = .inr t) ∧ (∃ t, callB .listPop [.list i, p] s = .inr t) := by
+  cases p <;> first | exact absurd rfl (hp _) | simp [callB, h]
+
+example : insertAt [.nil, .bool true] 1 (.bool false) = [.nil, .bool false, .bool true] := by decide
+example : removeAt [.nil, .bool false, .bool true] 1 = [.nil, .bool true] := by decide
+
+end C16
+end Pakhi
